@@ -2720,6 +2720,27 @@ func _return(n *node) {
 		}
 	}
 
+	for i, c := range child {
+		if c.rval.IsValid() || c.level != 0 || c.findex < 0 || c.findex >= i {
+			continue
+		}
+		// The operand is a result assigned by a previous operand, as in `return b, a` with
+		// results named a, b: evaluate all the operands before assigning the results.
+		n.exec = func(f *frame) bltn {
+			tmp := make([]reflect.Value, len(values))
+			for i, value := range values {
+				v := value(f)
+				tmp[i] = reflect.New(v.Type()).Elem()
+				tmp[i].Set(v)
+			}
+			for i, v := range tmp {
+				f.data[i].Set(v)
+			}
+			return nil
+		}
+		return
+	}
+
 	switch len(child) {
 	case 0:
 		n.exec = nil
